@@ -228,9 +228,13 @@ def _ncommon_native(xs, qs):
 def s_ncommon(ev, state, node):
     xs, qs = [ev.eval(state, a) for a in node.args]
     need_set_theory(ev, xs.ty[1])
-    sx = prims.to_set_value(ev, state, xs, node)
-    sq = prims.to_set_value(ev, state, qs, node)
-    r = ev.set_binop(state, 'inter', sq, coerce(sx, sq.ty))
+    # the same terms as prims.to_set_value / Evaluator.set_binop build for
+    # `set(qs).intersection(set(xs))`; their axioms come from set_theory_axioms (quantified)
+    from ..values import canon
+    st = T.TSet(xs.ty[1])
+    sx = canon(st, 'setof', xs.term)
+    sq = canon(st, 'setof', qs.term)
+    r = canon(st, 'setinter', sq.term, sx.term)
     return SymVal(T.INT, set_card(r))
 
 
@@ -307,6 +311,17 @@ def set_theory_axioms(elt_ty=T.NAME):
         else:
             card = set_card(R) <= set_card(A)
         out.append(z3.ForAll([a, b], z3.And(card, *wf(R)), patterns=[R.term]))
+    # lemmas (consequences of the axioms above for finite sets; stated to keep proofs short):
+    # q & (a | b) is empty iff q & a and q & b are; q & a is empty when q or a is
+    inter = lambda x, y: canon(st, 'setinter', x, y)      # noqa: E731
+    U = canon(st, 'setunion', a, b)
+    q = z3.Const('sta!q', T.sort_of(st))
+    out.append(z3.ForAll([q, a, b], (set_card(inter(q, U.term)) == 0) ==
+                         z3.And(set_card(inter(q, a)) == 0, set_card(inter(q, b)) == 0),
+                         patterns=[inter(q, U.term).term]))
+    out.append(z3.ForAll([q, a], z3.Implies(z3.Or(set_card(SymVal(st, q)) == 0, set_card(A) == 0),
+                                            set_card(inter(q, a)) == 0),
+                         patterns=[inter(q, a).term]))
     return out
 
 
@@ -325,3 +340,135 @@ def s_lidx(ev, state, node):
     """position of a level in tree.hierarchy (duplicate free by wf_mctree)"""
     t, l = [ev.eval(state, a) for a in node.args]
     return SymVal(T.INT, LIDX(t.term, _name_arg(l)))
+
+
+# ---- pool: own markers plus the lists of the table-listed ancestors down to level index i ---------
+def _pool_native(t, table, level, node, base, i):
+    """base | lists of the ancestors of (level, node) that are keys of `table`, for the ancestor
+    levels with index >= i (nearest = largest index first; the order does not matter for the set)"""
+    h = list(t.hierarchy)
+    anc = t.parents(level, node)
+    out = set(base)
+    for idx in range(h.index(level) - 1, i - 1, -1):
+        k = f'{h[idx]}/{anc[h[idx]]}'
+        if k in table:
+            out |= set(table[k])
+    return out
+
+
+_POOLF = {}
+
+
+def _pool_fn(table_ty):
+    st = T.TSet(T.NAME)
+    key = T.sort_of(table_ty).name()
+    if key not in _POOLF:
+        _POOLF[key] = z3.Function('mct_pool', TREE_S, T.sort_of(table_ty), NAME_S, NAME_S,
+                                  T.sort_of(st), z3.IntSort(), T.sort_of(st))
+    return _POOLF[key]
+
+
+@prims.spec_function('pool', native=_pool_native)
+def s_pool(ev, state, node):
+    from ..values import canon
+    t, table, level, nd, base, i = [ev.eval(state, a) for a in node.args]
+    if table.ty != T.TDict(T.NAME, T.TList(T.NAME)):
+        raise Unsupported("pool(): table must be Dict[Name,List[Name]]")
+    st = T.TSet(T.NAME)
+    base = coerce(base, st)
+    need_set_theory(ev, T.NAME)
+    F = _pool_fn(table.ty)
+    tt, ml, l, n, b, k = t.term, table.term, _name_arg(level), _name_arg(nd), base.term, coerce(i, T.INT).term
+    app = F(tt, ml, l, n, b, k)
+    if not _under_binder(tt, ml, l, n, b, k):
+        # the recursive definition, unfolded once at this (ground) index
+        h = select(t, ('fld', 'hierarchy'))
+        anc = SymVal(ANC_T, ANC(tt, l, n))
+        lev = seq_at(h, k)
+        akey = grp_term(lev, dict_val(anc)[lev])
+        nxt = F(tt, ml, l, n, b, k + 1)
+        added = canon(st, 'setunion', nxt, canon(st, 'setof', dict_val(table)[akey]).term).term
+        state.assume(z3.Implies(k >= LIDX(tt, l), app == b),
+                     z3.Implies(z3.And(0 <= k, k < LIDX(tt, l)),
+                                app == z3.If(dict_dom(table)[akey], added, nxt)))
+    return SymVal(st, app)
+
+
+def _under_binder(*terms):
+    """does a term mention a variable bound by an enclosing spec quantifier (named q_...)?"""
+    seen = set()
+    todo = list(terms)
+    while todo:
+        x = todo.pop()
+        if x.get_id() in seen:
+            continue
+        seen.add(x.get_id())
+        if z3.is_app(x):
+            if x.num_args() == 0 and x.decl().name().startswith('q_'):
+                return True
+            todo.extend(x.children())
+        elif z3.is_quantifier(x):
+            todo.append(x.body())
+    return False
+
+
+# ---- fallback_ok: the fallback rule of C08 (DESIGN A.3) as a named predicate -------------------------
+# T tree, ML input table, QS set of query genes, m minimum, (lv, nd) the parent, own = set of its
+# listed markers, R the list returned for it.  pool(i) = own + lists of the table-listed ancestors
+# at level index >= i (nearest ancestors have the largest index, so pools grow as i decreases).
+FALLBACK_DEF = (
+    "sorted_strict(R) and any("
+    # i = where the search stopped: the first level index (from the parent upwards) at which the
+    # pool reaches the minimum, or the top of the tree
+    "(i == 0 or len(QS.intersection({pool_i})) >= m) and "
+    "all(len(QS.intersection({pool_i2})) < m for i2 in range(i + 1, lidx(T, lv) + 1)) and "
+    # R holds exactly the query genes of that pool, plus the root's if the pool is still short
+    "all(g in QS and (g in {pool_i} or (len(QS.intersection({pool_i})) < m and 'None' in ML and g in ML['None'])) for g in R) and "
+    "all(implies(g in {pool_i} or (len(QS.intersection({pool_i})) < m and 'None' in ML and g in ML['None']), g in R) for g in QS) "
+    "for i in range(0, lidx(T, lv) + 1))"
+).format(pool_i="pool(T, ML, lv, nd, own, i)", pool_i2="pool(T, ML, lv, nd, own, i2)")
+
+_FB = {}
+
+
+def _fallback_ok_native(T_, ML, QS, m, lv, nd, own, R):
+    from ..native import sorted_strict, implies
+    env = dict(T=T_, ML=ML, QS=set(QS), m=m, lv=lv, nd=nd, own=set(own), R=list(R),
+               pool=_pool_native, lidx=lambda t, level: list(t.hierarchy).index(level),
+               sorted_strict=sorted_strict, implies=implies)
+    return bool(eval(FALLBACK_DEF, env))
+
+
+@prims.spec_function('fallback_ok', native=_fallback_ok_native)
+def s_fallback_ok(ev, state, node):
+    from ..engine import State
+    vals = [ev.eval(state, a) for a in node.args]
+    names = ['T', 'ML', 'QS', 'm', 'lv', 'nd', 'own', 'R']
+    tys = [TREE, T.TDict(T.NAME, T.TList(T.NAME)), T.TSet(T.NAME), T.INT, T.NAME, T.NAME,
+           T.TSet(T.NAME), T.TList(T.NAME)]
+    vals = [coerce(v, ty) for v, ty in zip(vals, tys)]
+    need_set_theory(ev, T.NAME)
+    key = tuple(T.sort_of(ty).name() for ty in tys)
+    if key not in _FB:
+        _FB[key] = z3.Function('mct_fallback_ok', *([T.sort_of(ty) for ty in tys] + [z3.BoolSort()]))
+    F = _FB[key]
+    done = ev.ctx._mc_axioms
+    if ('fallback_ok', vals[0].term.get_id()) not in done:
+        done.add(('fallback_ok', vals[0].term.get_id()))
+        # definition: for the tree at hand, every other argument universally quantified
+        consts = [vals[0]] + [SymVal(ty, z3.Const('fb!' + nm, T.sort_of(ty))) for nm, ty in zip(names[1:], tys[1:])]
+        st = State()
+        st.pc = []
+        for nm, c in zip(names, consts):
+            st.ghost[nm] = c
+        ev.ctx.spec_mode += 1
+        try:
+            body = truth(ev.eval(st, ast.parse(FALLBACK_DEF, mode='eval').body))
+        finally:
+            ev.ctx.spec_mode -= 1
+        app = F(*[c.term for c in consts])
+        ev.ctx.axioms.append(z3.ForAll([c.term for c in consts[1:]],
+                                       app == body, patterns=[app]))
+        # (facts recorded in st.pc while evaluating the body are instances of set_theory_axioms
+        # about bound variables; they are not needed and are dropped)
+    return SymVal(T.BOOL, F(*[v.term for v in vals]))
